@@ -139,6 +139,9 @@ def run(ctx, bt):
     run_engine_protocol(ctx, bt, n, [Monitor(ctx)], FOOT_FIELDS, None, corr_name="step[C01]", corpus=corpus())
     from ..runs_run import run_steps_protocol
     run_steps_protocol(ctx, bt, ctx.scale(14, 300), FOOT_FIELDS, "run-steps[C01]")
+    from .. import whole_run as W
+    # complete backtests of program trees (flat and nested, shadow copies included) executed end to end by the model
+    W.whole_run_protocol(ctx, bt, ctx.scale(15, 300), "whole-run[C01]", footprint_fields=FOOT_FIELDS)
 
 
 def search(ctx, bt):
